@@ -869,6 +869,7 @@ def decorate_with_checker(func: CallableT) -> CallableT:
                         snapshots=snapshots, resolved_kwargs=resolved_kwargs
                     )
             finally:
+                flag[0] = False  # (lowered right here: the call below might not get a frame any more)
                 _discard_in_progress(id_func, flag)
 
             # The contract checking is suspended only while the contracts are checked, but not while the function
@@ -892,6 +893,7 @@ def decorate_with_checker(func: CallableT) -> CallableT:
                     if violation_error is not None:
                         raise violation_error
                 finally:
+                    flag[0] = False  # (lowered right here: the call below might not get a frame any more)
                     _discard_in_progress(id_func, flag)
 
             return result
@@ -950,6 +952,7 @@ def decorate_with_checker(func: CallableT) -> CallableT:
                         snapshots=snapshots, resolved_kwargs=resolved_kwargs, func=func
                     )
             finally:
+                flag[0] = False  # (lowered right here: the call below might not get a frame any more)
                 _discard_in_progress(id_func, flag)
 
             # The contract checking is suspended only while the contracts are checked, but not while the function
@@ -975,6 +978,7 @@ def decorate_with_checker(func: CallableT) -> CallableT:
                     if violation_error is not None:
                         raise violation_error
                 finally:
+                    flag[0] = False  # (lowered right here: the call below might not get a frame any more)
                     _discard_in_progress(id_func, flag)
 
             return result
@@ -1177,6 +1181,7 @@ def _decorate_new_with_invariants(new_func: CallableT) -> CallableT:
                     for invariant in getattr(instance.__class__, "__invariants__", []):
                         _assert_invariant(contract=invariant, instance=instance)
                 finally:
+                    flag[0] = False  # (lowered right here: the call below might not get a frame any more)
                     _discard_in_progress(id_instance, flag)
 
         return instance
@@ -1250,6 +1255,7 @@ def _decorate_with_invariants(
 
                 return result
             finally:
+                flag[0] = False  # (lowered right here: the call below might not get a frame any more)
                 _discard_in_progress(id_instance, flag)
 
     else:
@@ -1315,6 +1321,7 @@ def _decorate_with_invariants(
 
                     return result
                 finally:
+                    flag[0] = False  # (lowered right here: the call below might not get a frame any more)
                     _discard_in_progress(id_instance, flag)
 
         else:
@@ -1369,6 +1376,7 @@ def _decorate_with_invariants(
 
                     return result
                 finally:
+                    flag[0] = False  # (lowered right here: the call below might not get a frame any more)
                     _discard_in_progress(id_instance, flag)
 
     functools.update_wrapper(wrapper=wrapper, wrapped=func)
